@@ -505,6 +505,13 @@ func (m *NodeManager) runSynchronizeBlocks(ctx context.Context,
 		m.blockManagerLock.Lock()
 		blockSyncNeeded := m.blockSyncNeeded
 		m.blockSyncNeeded = false
+		if !blockSyncNeeded {
+			// This thread is about to finish. Forget it under the same lock as the check, so that a
+			// trigger arriving from now on starts a new thread. Otherwise the trigger would only set
+			// the restart flag, because the thread is not marked complete until it has returned, and
+			// nothing would ever look at the flag again.
+			m.blockManagerThread = nil
+		}
 		m.blockManagerLock.Unlock()
 
 		if !blockSyncNeeded {
